@@ -323,14 +323,40 @@ def r96(repo, ctx):
                 whole = False
                 for c in U.calls(s.test):
                     nm = U.call_name(c) or ''
-                    if nm in ('np.unique', 'np.all', 'np.allclose', 'np.ptp', 'set', 'np.array_equal', 'np.isclose', 'np.amax', 'np.amin', 'np.max', 'np.min') and any(Tn in U.names_in(a) for a in c.args):
+                    if nm in ('np.unique', 'np.all', 'np.ptp', 'set', 'np.array_equal', 'np.amax', 'np.amin', 'np.max', 'np.min') and any(Tn in U.names_in(a) for a in c.args):
                         whole = True
+                tolerant = [U.call_name(c) for c in U.calls(s.test) if (U.call_name(c) or '') in ('np.allclose', 'np.isclose', 'math.isclose')]
+                if tolerant:
+                    ctx.violation('R9.6', BT, q, s, f'the batched evaluation at {Tn}[0] is guarded by the tolerance test {U.src(s.test)}: temperatures that differ by less than the tolerance are all '
+                                  f'evaluated at {Tn}[0], so a point inside such an array gets the result of another temperature than the same point alone', construct=U.src(s.test))
+                    continue
                 pol = _uniform_polarity(s.test, Tn)
                 ctx.check(whole and (pol is None or pol == taken_when), 'R9.6', BT, q, s, 'the single batched evaluation at T[0] is taken only when a predicate over the whole temperature array says all temperatures are equal',
                           (f'the batched evaluation at {Tn}[0] is guarded by a test that inspects only some entries of {Tn} ({U.src(s.test)}): a point inside an array is evaluated at another temperature than the same point alone'
                            if not whole else f'the batched evaluation at {Tn}[0] is taken when the temperatures are NOT all equal ({U.src(s.test)} selects the other branch for a uniform array)'),
                           construct=U.src(s.test))
     ctx.floor('R9.6', n, 1)
+    # the point-by-point evaluation visits the (T, gExtra) pairs in the order they were given
+    n2 = 0
+    for comp in ast.walk(f):
+        gens = comp.generators if isinstance(comp, (ast.ListComp, ast.GeneratorExp)) else None
+        body_calls = []
+        if gens is not None:
+            body_calls = [c for c in U.calls(comp.elt) if U.call_attr(c) == '_interfacialComposition']
+            iters = [g.iter for g in gens]
+        elif isinstance(comp, ast.For):
+            body_calls = [c for st in comp.body for c in U.calls(st) if U.call_attr(c) == '_interfacialComposition']
+            iters = [comp.iter]
+        if not body_calls:
+            continue
+        n2 += 1
+        reorder = [U.call_name(c) for it in iters for c in U.calls(it) if (U.call_name(c) or '') in ('np.unique', 'sorted', 'set', 'reversed', 'np.sort', 'np.flip', 'np.argsort', 'frozenset')]
+        rev_slice = any(isinstance(sl, ast.Slice) and sl.step is not None and not U.is_const(sl.step, 1) for it in iters for sub in ast.walk(it) if isinstance(sub, ast.Subscript)
+                        for sl in ([sub.slice] if not isinstance(sub.slice, ast.Tuple) else sub.slice.elts))
+        ctx.check(not reorder and not rev_slice, 'R9.6', BT, q, comp, 'the point-by-point evaluation walks the (T, gExtra) pairs in the order given, so the i-th result belongs to the i-th input',
+                  f'the point-by-point evaluation iterates {", ".join(U.src(it) for it in iters)} ({", ".join(reorder) or "a strided slice"} changes the order / multiplicity of the inputs): '
+                  'the i-th result no longer belongs to the i-th (T, gExtra) pair', construct='getInterfacialComposition: order of the per-point results')
+    ctx.floor('R9.6/order', n2, 1)
 
 
 def check(repo, ctx, index, purity):
